@@ -17,8 +17,8 @@ type frameCase struct {
 	Tag     string // iframe, object-data, object-param, blockquote
 	HTML    string // the frame element
 	SrcURL  string
-	Allowed bool   // the true host of the source is allow-listed (or a sub-domain)
-	May     bool   // allow-listed host in an unusual spelling: recognition optional
+	Allowed bool // the true host of the source is allow-listed (or a sub-domain)
+	May     bool // allow-listed host in an unusual spelling: recognition optional
 	WantTyp string
 	WantID  string // "" = no expectation on id
 }
